@@ -15,5 +15,7 @@ import (
 	_ "verif/harness/props/c11"
 	_ "verif/harness/props/c12"
 	_ "verif/harness/props/c13"
+	_ "verif/harness/props/c14"
 	_ "verif/harness/props/c15"
+	_ "verif/harness/props/c16"
 )
